@@ -452,6 +452,18 @@ example :
       [.start, .start, .t 0, .t 0, .start]).sh.pc = .preStart := by
   decide
 
+/-- E-SRC: the gates `Model/EarlyStep.lean` runs with `Cfg.fixed = true` are the ones in the source —
+`drain()` lifts every status except `Unstarted` that is below `Stopping` to `Draining`; `start` (Send and
+thread-local) links through `try_link_starting` → `link_starting`, whose child bound is `Stopping`
+(the public `link()`: `Draining`); `link_below` refuses `child >= bound || supervisor >= Draining`.
+Reverting fix ee38a9c breaks this obligation (besides the oracle). -/
+theorem src_start_drain_gates :
+    Extracted.drainLiftGuard = "f != (ActorStatus::Unstarted as u8) && f < (ActorStatus::Stopping as u8)" ∧
+    Extracted.drainLiftsTo = "Draining" ∧
+    Extracted.sendStartLinkCall = "try_link_starting" ∧ Extracted.localStartLinkCall = "try_link_starting" ∧
+    Extracted.tryLinkStartingCalls = "link_starting" ∧ Extracted.linkStartingChildBound = "Stopping" ∧
+    Extracted.linkChildBound = "Draining" ∧ Extracted.linkBelowGate = true := by decide
+
 /-- the status constants of the model are the discriminants in the source -/
 theorem src_status_discriminants_start :
     (Extracted.statusDiscriminants.lookup "Unstarted", Extracted.statusDiscriminants.lookup "Starting",
@@ -489,4 +501,5 @@ end C07
 #print axioms C07.start_race_drain_completes_fair
 #print axioms C07.start_race_nothing_accepted_after_close
 #print axioms C07.unfixed_link_gate_drops_accepted_casts
+#print axioms C07.src_start_drain_gates
 #print axioms C07.src_status_discriminants_start
